@@ -108,7 +108,7 @@ def run_check():
                         "nd class, spectrum kind, dir order, dtype, parameter class); non-trivial = energy in ≥2 frequencies and ≥2 directions")
     ck.do_audit()
     import_ws()
-    n = 240 if ck.tier == "quick" else 4000
+    n = 240 if ck.tier == "quick" else 2000
     recs = [r for r in pmap(make_case, [(ck.seed, i) for i in range(n)]) if r is not None]
     # light correspondence: the model of C01 on S (ties the theorems' model to the code inside this check too)
     reqs = []
